@@ -66,7 +66,7 @@ def model_input(form: dict) -> dict:
 
 def canon_obs(o: dict) -> dict:
     return {
-        "instances": [{"id": i["id"], "src": i["src"], "items": i["items"]} for i in o["instances"]],
+        "instances": [{"id": i["id"], "src": i["src"], "items": i["items"], "xml": i.get("xml")} for i in o["instances"]],
         "selects": o["selects"],
         "csv": o["csv"],
         "csv_text": o["csv_text"],
